@@ -64,7 +64,7 @@ def judge_checkkey(sh, line, kw, kv, ident, op):
         fail('decrypt-master', 'master key does not decrypt')
 
 
-def build_exhaustive(sc, sh, pid, l, sig):
+def build_exhaustive(sc, sh, pid, l, sig, part=None):
     """l=3: every keygen list, every documented one-step transition, both omit-all settings"""
     rng = sc.rng
     vals = VALUES
@@ -75,7 +75,8 @@ def build_exhaustive(sc, sh, pid, l, sig):
         return vals[vi[0] % len(vals)]
     per_slot = [None, 'v', 'h']
     lists = list(itertools.product(per_slot, repeat=l))
-    mine = [(lst, oa) for k, (lst, oa) in enumerate(itertools.product(lists, (False, True))) if k % 8 == sh.index % 8]
+    mod, rem = (8, sh.index % 8) if part is None else (part[1], part[0])
+    mine = [(lst, oa) for k, (lst, oa) in enumerate(itertools.product(lists, (False, True))) if k % mod == rem]
     for lst, oa in mine:
         entries = [(i, (val() if c == 'v' else None)) for i, c in enumerate(lst) if c is not None]
         hist = 'keygen(%s)' % wkd.alist(entries, oa)[:2] + transition_sig(None, entries, oa, l)
@@ -199,11 +200,17 @@ def worker(sh):
         sc.setup(0, 3, sig)
         build_exhaustive(sc, sh, 0, 3, sig)
         sh.count('exhaustive_l3_shards', 1)
+    elif not sh.quick and sh.index < 14:
+        # thorough: the same enumeration for l = 4 (162 keygen lists x every documented one-step list), split over six shards
+        sc.setup(0, 4, sh.index % 2 == 0)
+        build_exhaustive(sc, sh, 0, 4, sh.index % 2 == 0, part=(sh.index - 8, 6))
+        sh.count('exhaustive_l4_shards', 1)
     else:
-        l = [1, 5, 8, 20, 2, 4, 8, 12][sh.index - 8]
+        ridx = sh.index - 8 if sh.quick else sh.index - 14
+        l = [1, 5, 8, 20, 2, 4, 8, 12, 20, 6][ridx % 10]
         sig = rng.random() < 0.5
         sc.setup(0, l, sig)
-        build_random(sc, sh, 0, l, sig, sh.pick(6, 40), 5)
+        build_random(sc, sh, 0, l, sig, sh.pick(6, 120), 5)
     outs = session.run_all(sh, sh.payload['cfgs'], sc.lines)
     for line, (kind, kw), out in zip(sc.lines, sc.exp, outs):
         if out is None:
@@ -233,7 +240,7 @@ def worker(sh):
 def run(ctx):
     cfgs = ['prod', 'san'] if ctx.quick else ['prod', 'san', 'p64', 'p32-san']
     exes = session.build_exes({c: (c, 'wkd_drv.cpp', []) for c in cfgs})
-    session.run_shards(ctx, worker, 16, exes, {'cfgs': cfgs})
+    session.run_shards(ctx, worker, 16 if ctx.quick else 24, exes, {'cfgs': cfgs})
     ctx.rule = ('histories of keygen / qualifykey / nondelegable_keygen / nondelegable_qualifykey / adjust_nondelegable / resamplekey executed through the C API with slot arrays of '
                 'exactly the size the Go binding allocates; after every step an in-process monitor checks the key against the slot-pattern model kept outside the library: '
                 'free-slot list, e(a0,g)=e(g2,g1)e(g3 prod h_i^v_i,a1), e(b_i,g)=e(h_i,a1), bsig, subgroup membership, decryption of a fresh ciphertext for exactly the pattern by key '
